@@ -263,17 +263,95 @@ fn stress_mode(wseed: u64, threads: usize, rounds: usize) {
         }
         out
     };
+    // path adapters (feature mmap): thread 0 hashes a file whose path is longer than PATH_MAX (the call fails or
+    // succeeds, but always the same way), the others hash small files through RELATIVE paths; nothing a hasher does
+    // with its path may move the ground under another one (the working directory is process-wide)
+    #[cfg(feature = "mmap")]
+    let paths: Vec<std::path::PathBuf> = {
+        let dir = std::env::temp_dir().join(format!("b3miri.stress.{}", std::process::id()));
+        let _ = std::fs::remove_dir_all(&dir);
+        std::fs::create_dir_all(&dir).expect("scratch dir");
+        std::env::set_current_dir(&dir).expect("chdir");
+        let mut v = Vec::new();
+        // nested directories, created hop by hop (each relative to the previous one)
+        let mut deep = dir.clone();
+        let comp = "d".repeat(200);
+        let mut rel_ok = true;
+        for _ in 0..22 {
+            deep = deep.join(&comp);
+        }
+        {
+            let mut cur = dir.clone();
+            for _ in 0..22 {
+                cur = cur.join(&comp);
+                if std::fs::create_dir(&cur).is_err() {
+                    // beyond PATH_MAX mkdir needs hops as well: go there step by step
+                    rel_ok = false;
+                    break;
+                }
+            }
+            if !rel_ok {
+                std::env::set_current_dir(&dir).unwrap();
+                for _ in 0..22 {
+                    let _ = std::fs::create_dir(&comp);
+                    if std::env::set_current_dir(&comp).is_err() {
+                        break;
+                    }
+                }
+                let _ = std::fs::write("f.bin", bytes(wseed ^ 77, 20000));
+                std::env::set_current_dir(&dir).unwrap();
+            } else {
+                let _ = std::fs::write(deep.join("f.bin"), bytes(wseed ^ 77, 20000));
+            }
+        }
+        v.push(deep.join("f.bin"));
+        for t in 1..threads {
+            let name = format!("rel{t}.bin");
+            std::fs::write(&name, bytes(wseed ^ t as u64, 17000 + t * 13)).expect("write");
+            v.push(std::path::PathBuf::from(name));
+        }
+        v
+    };
+    #[cfg(feature = "mmap")]
+    let path_run = |p: &std::path::Path| -> Vec<u8> {
+        let mut h = blake3::Hasher::new();
+        match h.update_mmap(p) {
+            Ok(_) => h.finalize().as_bytes().to_vec(),
+            Err(e) => format!("error kind {:?}", e.kind()).into_bytes(),
+        }
+    };
     let jobs: Vec<(Vec<Vec<u8>>, [u8; 32], String)> = (0..threads).map(mk).collect();
-    let solo: Vec<Vec<Vec<u8>>> = jobs.iter().map(|(i, k, c)| run(i, k, c)).collect();
+    #[allow(unused_mut)]
+    let mut solo: Vec<Vec<Vec<u8>>> = jobs.iter().map(|(i, k, c)| run(i, k, c)).collect();
+    #[cfg(feature = "mmap")]
+    for (t, s) in solo.iter_mut().enumerate() {
+        s.push(path_run(&paths[t]));
+    }
     let barrier = Arc::new(Barrier::new(threads));
     let bad = Arc::new(std::sync::atomic::AtomicUsize::new(usize::MAX));
     std::thread::scope(|sc| {
         for (t, (inputs, key, ctx)) in jobs.iter().enumerate() {
             let (b, bad, want) = (barrier.clone(), bad.clone(), &solo[t]);
+            #[cfg(feature = "mmap")]
+            let (paths, path_run) = (&paths, &path_run);
             sc.spawn(move || {
                 b.wait();
                 for _ in 0..rounds {
-                    if run(inputs, key, ctx) != *want {
+                    #[allow(unused_mut)]
+                    let mut got = run(inputs, key, ctx);
+                    #[cfg(feature = "mmap")]
+                    {
+                        // (many path operations per round: the window is a few system calls wide)
+                        let mut last = Vec::new();
+                        for _ in 0..40 {
+                            last = path_run(&paths[t]);
+                            if last != want[want.len() - 1] {
+                                break;
+                            }
+                        }
+                        got.push(last);
+                    }
+                    if got != *want {
                         bad.store(t, std::sync::atomic::Ordering::Relaxed);
                         return;
                     }
@@ -284,6 +362,12 @@ fn stress_mode(wseed: u64, threads: usize, rounds: usize) {
             });
         }
     });
+    #[cfg(feature = "mmap")]
+    {
+        let dir = std::env::temp_dir().join(format!("b3miri.stress.{}", std::process::id()));
+        let _ = std::env::set_current_dir(std::env::temp_dir());
+        let _ = std::fs::remove_dir_all(&dir);
+    }
     let t = bad.load(std::sync::atomic::Ordering::Relaxed);
     if t != usize::MAX {
         panic!("NOT-ISOLATED workload_seed={} thread={}: a result computed while other threads were hashing differs from the solo run", wseed, t);
